@@ -79,6 +79,7 @@ class OnEvent(Contract):
     def result(self, ip, a, old):
         st = ip.st
         W = st.ghost['W']
+        st.ghost.setdefault('on_event_log', []).append((a.event.oid if isinstance(a.event, ORef) else None, a.auto_pong))
         if is_event(ip, a.event, events.Ping):
             st.heap[W.state.oid].f['closing'] = old.get(W.state, 'closing')
             truthy = ip.truth(a.auto_pong)
@@ -274,6 +275,19 @@ class Run(ProducerContract):
         if cls is events.Connected:
             st.oblige('yield%d(Connected):request-written-exactly-once' % k, BoolVal(st.ghost.get('request_bytes') is not None), tags=('C10', 'C19'))
         g['phase'] = newphase
+        # ---- every event obtained from a producer is handed on itself, exactly once (C01), and the
+        # library's own reaction to it (auto-pong, timers) happened BEFORE the application sees it (C14)
+        if k in (5, 6, 7):
+            cur = ip.env.vars.get('event')
+            st.oblige('yield%d(%s):hands-on-the-very-event-object-it-got' % (k, name), BoolVal(isinstance(cur, ORef) and cur == v), tags=('C01', 'C07'))
+            seen = st.ghost.setdefault('handed_on', [])
+            st.oblige('yield%d(%s):each-event-handed-on-once' % (k, name), BoolVal(isinstance(v, ORef) and v.oid not in seen), tags=('C01',))
+            if isinstance(v, ORef):
+                seen.append(v.oid)
+        if k == 6:
+            log = st.ghost.get('on_event_log', [])
+            st.oblige('yield6(%s):library-reaction(auto-pong, timers)-precedes-the-application' % name,
+                      BoolVal(bool(log) and isinstance(v, ORef) and log[-1][0] == v.oid and log[-1][1] is ip.args.auto_pong), tags=('C14', 'C15', 'C18'))
         st.ghost.setdefault('yield_trace', []).append((k, name))
         if st.choose(['resume', 'close'], 'yield%d' % k) == 'close':
             st.ghost['closing_at'] = (k, name, v, st.snapshot())
@@ -312,6 +326,10 @@ class Run(ProducerContract):
         if sel is not None:
             c = st.get(sel, '$closed')
             st.oblige('exhausted:selector-closed', BoolVal(c) if isinstance(c, bool) else c, tags=('C09', 'C13'))
+
+    def on_loop_break(self, ip, k):
+        if k == 2:
+            ip.st.oblige('loop2:events-of-a-read-are-all-delivered(no break out of the feed loop)', BoolVal(False), tags=('C18', 'C01'))
 
     # ---- loop invariants
     def loop(self, k):
@@ -370,6 +388,14 @@ class Run(ProducerContract):
             return LoopSpec(inv=inv, modifies=mods, locals=locs)
         if k in (1, 3):
             return LoopSpec(inv=inv, modifies=mods_regular, locals={'event': T.Const(None)})
+        def checks_feed(ip, when):
+            st = ip.st
+            rl, fl = st.ghost.get('recv_values', []), st.ghost.get('feed_args', [])
+            if when == 'entry':
+                # the whole result of this cycle's single read is what is fed (C18)
+                return [('everything-received-is-fed(the whole read, once)', BoolVal(bool(rl) and bool(fl) and fl[-1] is rl[-1]), ('C18', 'C01'))]
+            vis = st.ghost.get('loops_visited', [])
+            return [('housekeeping-evaluated-after-every-event', BoolVal(2 in vis and 3 in vis[len(vis) - 1 - vis[::-1].index(2) + 1:]), ('C15', 'C18'))]
         if k == 2:
-            return LoopSpec(inv=inv, modifies=mods_feed, locals={'event': T.Const(None)})
+            return LoopSpec(inv=inv, modifies=mods_feed, locals={'event': T.Const(None)}, checks=checks_feed)
         return None
